@@ -332,10 +332,12 @@ def _risky(st, w):
 
 
 def _ub_in_parent(st, w):
-    """Ops the model calls undefined behaviour: never applied to the parent's objects."""
+    """Risky ops that are never applied to the parent's objects: every scalar atom index outside [-n, n) (the model
+    says error, crash, no-op or ub for them) and masks shorter than the atom count (ub).  Only a too long mask,
+    which the code handles without unchecked accesses, is performed for real after the child survived it."""
     n = int(st.cur.get_atom_count())
-    if w[0] == "add":
-        return any(i < -n for i in _atom_indices(w))
+    if any(not (-n <= i < n) for i in _atom_indices(w)):
+        return True
     if w[0] == "getitem" and w[1] in ("mask", "smask"):
         return len(_parse_bits(w[2])) < n
     return False
@@ -360,9 +362,21 @@ def _exec(st, w):
         return "ERR:" + type(e).__name__
 
 
-def run_impl(case):
+def _run_impl_inner(case):
     st = _St()
     return [_exec(st, op.split()) for op in case["ops"]]
+
+
+def run_impl(case):
+    """The whole history runs in a forked child: a changed kernel that corrupts memory on *valid* input must not
+    take the check down with it."""
+    from common import sandbox
+    import numpy, networkx                           # noqa: F401  (loaded once in the parent, inherited by the children)
+    import biotite.structure.bonds                  # noqa: F401
+    r = sandbox.run_forked(_run_impl_inner, case, timeout=120)
+    if r[0] == "ok":
+        return r[1]
+    return ["PROCESS-KILLED" if r[0] == "crash" else r[0].upper()]
 
 
 # ---------------------------------------------------------------- property oracle (independent of the Lean model)
@@ -558,6 +572,25 @@ def _finding_key(w, n, got):
 
 
 def oracle(case):
+    """Forked wrapper of `_oracle_inner`; if the child is killed, the killing op is located by replaying prefixes."""
+    from common import sandbox
+    import numpy, networkx                           # noqa: F401
+    import biotite.structure.bonds                  # noqa: F401
+    r = sandbox.run_forked(_oracle_inner, case, timeout=300)
+    if r[0] == "ok":
+        return r[1]
+    if r[0] == "err":
+        raise RuntimeError(f"oracle raised {r[1]}: {r[2]}")
+    ops = list(case.get("ops") or [])
+    for k in range(1, len(ops) + 1):
+        rk = sandbox.run_forked(_oracle_inner, {"kind": case.get("kind"), "ops": ops[:k]}, timeout=300)
+        if rk[0] != "ok":
+            w = ops[k - 1].split()
+            return [(f"C02/{OPNAME.get(w[0], w[0])}/process-killed", f"after {ops[:k - 1]}: `{ops[k - 1]}` (accepted by the mapping) killed the process ({rk[0]})")]
+    return [("C02/history/process-killed", f"the history {ops} killed the process ({r[0]})")]
+
+
+def _oracle_inner(case):
     """Replay the history on the real code and on the reference mapping written from the statement:
     after every accepted op all views must agree with the mapping; every required rejection must be an exception
     (IndexError where the statement says so) that leaves both lists unchanged; nothing may kill the process."""
